@@ -144,7 +144,7 @@ class C08(Check):
     assumptions = [
         "cut kinds: EOF (peer closes; later client writes are answered by RST), RST, black hole (silence both ways), stall (delivery paused)",
         "T=None is combined with EOF/RST only (no implementation can bound silence without a timeout)",
-        "recovery is demanded only for detectable loss (EOF/RST), max_retry >= 1 and a listener that accepted every reconnect attempt the client made",
+        "recovery is demanded only for detectable loss (EOF/RST), max_retry >= 1 and a listener that accepted every reconnect attempt the client made or was back before the client's own back-off (UDSClient.retry_wait) had elapsed",
         "no kernel socket buffers / keep-alive; peers are correct (gateway models forward to gallia's UDSServerTransport.handle_request)",
     ]
     components = {
